@@ -17,6 +17,14 @@ def specs():
                     "fd_timed_read_n": ("outinput", "r_read", I32, {}, [2], [{"errno": ("errno_hdr", I32)}, {"errno": ("errno_body", I32)}]),
                     "_msg_unpack": ("outinput", "r_unpack", (32, False), {}, [1, 3],
                                     [{"m.type": ("hdr_type", (8, False)), "m.pkt_len": ("hdr_pkt_len", (32, False))}, {}])}),
+        dict(name="m_msg_send", named_free=True, slim_rets=True, params=["type", "maxlen"],
+             inputs=[("m.sd", "sd"), ("m.type", "cur_type"), ("m.pkt", "pkt_ptr"), ("m.pkt_len", "cur_pkt_len"), ("m.pkt_is_copy", "pkt_is_copy"),
+                     ("malloc_ret", "malloc_ret")],
+             calls={"m_msg_set_err": ("event", 0, [1]), "strdup": ("ignore", 1), "strdupf": ("ignore", 1), "strerror": ("ignore", 1),
+                    "log_msg": ("ignore", 0), "_get_timeval": ("ignore", 0),
+                    "_msg_length": ("outinput", "r_length", I32, {}, [1]),
+                    "_msg_pack": ("outinput", "r_pack", (32, False), {}, [1, 3]),
+                    "fd_timed_write_iov": ("outinput", "r_write", I32, {}, [2], [{"errno": ("errno_write", I32)}])}),
     ]
 
 
